@@ -16,7 +16,7 @@ LEVEL_TEXT = ('Bounded symbolic verification, inductive over the RIB: from an *a
               'through the REST update view, for flowspec and VPNv4 version counters (symbolic attribute values, enumerated rules), '
               'for the flush on connectionLost, and along symbolic sequences of three updates from an empty RIB.')
 LEVEL_NOTE = 'Prefixes / flowspec rules / VPN routes are dictionary keys in the implementation (string keys), hence enumerated; attribute values and subsets are symbolic. py-radix replaced by an exact-match model.'
-LEVEL_ADDED = 'Also: what is received must not touch the send-side table / counter and vice versa; one UPDATE carrying MP_REACH and MP_UNREACH; change-then-repeat of the same announcement. The same prefix in WITHDRAWN ROUTES and NLRI of one UPDATE (the announcement counts); one MP_UNREACH withdrawing an absent and a present rule.'
+LEVEL_ADDED = 'Also: what is received must not touch the send-side table / counter and vice versa; one UPDATE carrying MP_REACH and MP_UNREACH; change-then-repeat of the same announcement. The same prefix in WITHDRAWN ROUTES and NLRI of one UPDATE (the announcement counts); one MP_UNREACH withdrawing an absent and a present rule. IPv4 NLRI / withdrawn routes travelling with an MP attribute; flowspec send version through the REST view for rules with one- and two-digit component types.'
 TECHNIQUE = 'symbolic one-step RIB relation from arbitrary pre-RIBs + bounded symbolic update sequences (CrossHair+z3) against a dictionary model'
 EXPLANATION = 'C19: RIB / version-counter step relation vs a dictionary model.'
 BOUNDS = 'pool of 3 IPv4 prefixes (8 pre-RIB shapes) x symbolic subsets; 2 flowspec rules, 2 VPNv4 routes; sequences of 3 updates'
